@@ -42,3 +42,13 @@ func (sys *ActorSystem) VerifSubscriptionRef() ActorRef { return sys.subscriptio
 
 // VerifNewAbyss returns a fresh default dead-letter process, so that a harness can wrap it (verification builds only).
 func VerifNewAbyss() AbyssProcess { return newAbyss() }
+
+// VerifClosed reports whether the root actor has terminated, i.e. Shutdown would return (verification builds only).
+func (sys *ActorSystem) VerifClosed() bool {
+	select {
+	case <-sys.closed:
+		return true
+	default:
+		return false
+	}
+}
